@@ -259,6 +259,23 @@ def build(plan):
                     tpx = du["fragment_parse"]["transform_parameters"]
                 etpx = tpx.get("extended_transform_parameters") if tpx is not None else None
                 if etpx is not None:
+                    # redundant but legal encodings: a flag may be set although the value it introduces equals
+                    # what the decoder would have assumed (same horizontal wavelet, horizontal-only depth 0);
+                    # neither implies major version 3 by itself, the other flag still may (seed C07e)
+                    if not etpx.get("asym_transform_index_flag", False) and "wavelet_index" in tpx and rnd.random() < 0.5:
+                        etpx["asym_transform_index_flag"] = True
+                        etpx["wavelet_index_ho"] = tpx["wavelet_index"]
+                        kinds_used.add(("asym_transform_index_flag", "redundant"))
+                    elif (etpx.get("asym_transform_index_flag", False) and "wavelet_index" in tpx
+                          and tpx.get("quant_matrix", {}).get("custom_quant_matrix", False) and rnd.random() < 0.4):
+                        # flag kept, horizontal wavelet made equal to the vertical one (the custom quantisation
+                        # matrix depends on the depths only, so the stream stays decodable)
+                        etpx["wavelet_index_ho"] = tpx["wavelet_index"]
+                        kinds_used.add(("asym_transform_index_flag", "same-index"))
+                    if not etpx.get("asym_transform_flag", False) and rnd.random() < 0.3:
+                        etpx["asym_transform_flag"] = True
+                        etpx["dwt_depth_ho"] = 0
+                        kinds_used.add(("asym_transform_flag", "redundant"))
                     dflt = B.vc2_default_values[B.ExtendedTransformParameters]
                     for f in ("wavelet_index_ho", "dwt_depth_ho"):
                         if f in etpx and f in dflt and int(etpx[f]) == int(dflt[f]) and rnd.random() < 0.6:
